@@ -406,6 +406,10 @@ def r7_registry_mirror(cx):
     mir = [c for c in find_calls(h.body, attr="add_exception") if _registry_loop(c, comp) is not None and U(c.args[0]) == U(_registry_loop(c, comp).target)]
     cx.require(len(mir) >= 1, h, "the catch-all arm also records against every registry point of the component",
                construct=short(mir[0]) if mir else "except Exception: (no loop over get_registry_points(%s))" % comp)
+    for c_ in mir:
+        g_ = guard_texts(c_, stop=_registry_loop(c_, comp))
+        cx.require(not g_, c_, "every failing implementation is recorded against the registry point, whatever was recorded there before (which of two failing implementations ran first must not matter)",
+                   construct="%s under %s" % (short(c_, 60), sorted(g_)) if g_ else short(c_, 60))
     # BlacklistedSpec arm records too
     bl = [h2 for h2 in tr[0].handlers if handler_names(h2) == ["BlacklistedSpec"]]
     for h2 in bl:
